@@ -180,7 +180,58 @@ struct Input {
     secs: Secs,
 }
 
+/// Section offsets of the written input: `die[k]` = DIE named e<k>, `units[j]` = header of unit j.
+struct Layout {
+    die: HashMap<usize, u64>,
+    units: Vec<u64>,
+}
+
+fn layout_of(secs: &Secs) -> Result<Layout, String> {
+    let dw = load(secs);
+    let rd = |e: gimli::Error| format!("input-read-{}", errname(&e));
+    let mut l = Layout { die: HashMap::new(), units: Vec::new() };
+    let mut it = dw.units();
+    while let Some(h) = it.next().map_err(rd)? {
+        let unit = dw.unit(h).map_err(rd)?;
+        let ur = unit.unit_ref(&dw);
+        let uoff = unit.header.offset().0 as u64;
+        l.units.push(uoff);
+        let mut raw = ur.entries_raw(None).map_err(rd)?;
+        let mut e = read::DebuggingInformationEntry::null();
+        while !raw.is_empty() {
+            if !raw.read_entry(&mut e).map_err(rd)? {
+                continue;
+            }
+            if let Some(k) = parse_ident(ent_name(ur, &e).as_bytes()) {
+                l.die.insert(k, uoff + e.offset.0 as u64);
+            }
+        }
+    }
+    Ok(l)
+}
+
+fn has_oobent(forest: &Forest) -> bool {
+    forest.iter().any(|u| u.iter().any(|e| e.sites.iter().any(|s| s.tkind == 5)))
+}
+
+// tkind 5 needs the final layout: every reference it can be carried by has a fixed size, so the input is
+// built once with a placeholder, measured, and built again with the real values.
 fn build_input(ver: u16, fmt: Format, asz: u8, forest: &Forest) -> Result<Input, String> {
+    if has_oobent(forest) {
+        let first = build_input_with(ver, fmt, asz, forest, None)?;
+        let l = layout_of(&first.secs)?;
+        let second = build_input_with(ver, fmt, asz, forest, Some(&l))?;
+        let l2 = layout_of(&second.secs)?;
+        if l.die != l2.die || l.units != l2.units {
+            return Err("layout-moved".into());
+        }
+        Ok(second)
+    } else {
+        build_input_with(ver, fmt, asz, forest, None)
+    }
+}
+
+fn build_input_with(ver: u16, fmt: Format, asz: u8, forest: &Forest, layout: Option<&Layout>) -> Result<Input, String> {
     let enc = Encoding { format: fmt, version: ver, address_size: asz };
     let hdr = hdr_size(ver, fmt);
     let mut dwarf = w::Dwarf::new();
@@ -244,6 +295,24 @@ fn build_input(ver: u16, fmt: Format, asz: u8, forest: &Forest) -> Result<Input,
                         }
                     }
                     3 => Tgt::Raw(if info { OOB_INFO } else { OOB_UNIT }),
+                    5 => {
+                        // unit-relative, beyond the end of this unit, exactly on DIE e<tval> of a later unit
+                        if info {
+                            return Err("oobent-needs-unit-relative-carrier".into());
+                        }
+                        let (tj, _, _) = *ids.get(s.tval as usize).ok_or("bad-target")?;
+                        if tj <= j {
+                            return Err("oobent-not-later-unit".into());
+                        }
+                        match layout {
+                            None => Tgt::Raw(OOB_UNIT),
+                            Some(l) => {
+                                let t = *l.die.get(&(s.tval as usize)).ok_or("oobent-unknown-die")?;
+                                let u0 = *l.units.get(j).ok_or("oobent-unknown-unit")?;
+                                Tgt::Raw(t - u0)
+                            }
+                        }
+                    }
                     _ => Tgt::Raw(0),
                 };
                 let name = site_attr(sj, s);
@@ -684,6 +753,37 @@ fn filtered(dw: &read::Dwarf<R<'_>>, req: &[bool]) -> Result<w::Dwarf, w::Conver
     Ok(out)
 }
 
+// The error-tolerant loop documented on ConvertUnit: DIE by DIE, attribute by attribute; an attribute whose
+// conversion fails is skipped.
+fn filtered_tolerant(dw: &read::Dwarf<R<'_>>, req: &[bool]) -> Result<w::Dwarf, w::ConvertError> {
+    let filter = make_filter(dw, req)?;
+    let mut out = w::Dwarf::new();
+    {
+        let mut conv = out.convert_with_filter(filter)?;
+        while let Some((mut unit, root)) = conv.read_unit()? {
+            let root_id = unit.unit.root();
+            for attr in &root.attrs {
+                if let Ok(v) = unit.convert_attribute_value(root.read_unit, attr, &addr) {
+                    unit.unit.get_mut(root_id).set(attr.name(), v);
+                }
+            }
+            let mut entry = root;
+            while let Some(id) = unit.read_entry(&mut entry)? {
+                if id.is_none() {
+                    continue;
+                }
+                let id = unit.add_entry(id, &entry);
+                for attr in &entry.attrs {
+                    if let Ok(v) = unit.convert_attribute_value(entry.read_unit, attr, &addr) {
+                        unit.unit.get_mut(id).set(attr.name(), v);
+                    }
+                }
+            }
+        }
+    }
+    Ok(out)
+}
+
 // After a failure: redo the conversion DIE by DIE and attribute by attribute (the loop documented on
 // ConvertUnit) to find the attribute whose conversion fails.
 fn diagnose(dw: &read::Dwarf<R<'_>>, req: &[bool], forest: &Forest) -> String {
@@ -736,6 +836,43 @@ thread_local! {
     static CACHE: RefCell<Option<(String, Rc<(Result<Input, String>, Option<Unfiltered>)>)>> = RefCell::new(None);
 }
 
+fn run_tolerant(dw: &read::Dwarf<R<'_>>, req: &[bool]) -> String {
+    let mut out = match filtered_tolerant(dw, req) {
+        Ok(o) => o,
+        Err(e) => return format!("err {}", convert_error_name(&e)),
+    };
+    let secs = match write_out(&mut out) {
+        Ok(s) => s,
+        Err(e) => return format!("write-mismatch {}", errname(&e)),
+    };
+    let d = match dump(&secs) {
+        Ok(d) => d,
+        Err(e) => return format!("readback-mismatch {}", e),
+    };
+    if let Some(what) = &d.dangling {
+        return format!("dangling-mismatch {}", what);
+    }
+    if d.dup {
+        return "dup-mismatch".into();
+    }
+    let mut items: Vec<(usize, String)> = Vec::new();
+    for n in &d.order {
+        if let Some(k) = parse_ident(n.as_bytes()) {
+            let p = &d.ents[n].parent;
+            let p = if p.starts_with("root") { "r".to_string() } else if let Some(pk) = parse_ident(p.as_bytes()) { pk.to_string() } else { p.clone() };
+            items.push((k, p));
+        } else if !n.starts_with("root") {
+            return format!("readback-mismatch unnamed-entry {}", n);
+        }
+    }
+    items.sort();
+    let mut s = String::from("ok");
+    for (k, p) in items {
+        s.push_str(&format!(" {}:{}", k, p));
+    }
+    s
+}
+
 pub fn run(t: &[&str]) -> String {
     if t.len() < 6 {
         return "bad-case".into();
@@ -774,6 +911,9 @@ pub fn run(t: &[&str]) -> String {
     };
     let unf = cached.1.as_ref().unwrap();
     let dw = load(&input.secs);
+    if t[0] == "c19.oob" {
+        return run_tolerant(&dw, &req);
+    }
     let mut out = match filtered(&dw, &req) {
         Ok(o) => o,
         Err(e) => {
